@@ -173,7 +173,8 @@ pub fn res_state(res_with_dirs: &[(Vec<Res>, PathBuf)], vars_dir: &Path) -> ResS
         }
         for r in res {
             if let Res::Cmd { key } = r {
-                let v = std::fs::read(vars_dir.join(key)).unwrap_or_default();
+                let root = vars_dir.parent().unwrap_or(vars_dir);
+                let v = simrt::vfs::lookup_var(vars_dir, root, dir, key);
                 if v.starts_with(b"!fail") {
                     st.cmd_failed = true;
                 }
